@@ -41,11 +41,10 @@ with the model run on the rebuilt programs.
 from __future__ import annotations
 
 import json
-
-import numpy as np
-
 import random
 import time
+
+import numpy as np
 
 import c09gen as hg
 import circgen as cg
@@ -217,7 +216,7 @@ def rebuild(prog: list, top: str) -> dict:
     """observables of the circuit built from scratch by a plain circgen program (cached)"""
     key = hg.prog_key([prog, top])
     if key not in _REF:
-        if len(_REF) > 20000:
+        if len(_REF) > 6000:
             _REF.clear()
         pool: dict = {}
         bad = None
@@ -430,8 +429,10 @@ def check_history(ctx: Ctx, prog: list, top: str, stream: str, nontriv: bool = T
     def still(sub):
         return hg.well_formed(sub) and fails(sub)
 
+    # the first failing histories are shrunk (their replays are written); once the report quota is used up the
+    # remaining ones are only counted, so that a broken library does not cost minutes
     reported = len(ctx.violations) + len(ctx.disagreements)
-    small = ddmin(prog, still, max_tests=300 if reported < ctx.max_reports else 20)
+    small = ddmin(prog, still, max_tests=300) if reported < ctx.max_reports else prog
     sprobs = run_history(ctx, small, model=not want_oracle, stop_at_first=False, top=top) or probs
     oracle = [p for p in sprobs if p.startswith("oracle")]
     rep = {"history": small, "top": top, "problems": sprobs, "stream": stream}
@@ -501,7 +502,7 @@ def run(ctx: Ctx) -> None:
                 ctx.disagreement(sprobs[0], rep)
     t2 = time.time()
     # -- 3. random histories
-    for i in range(ctx.n(400, 12000)):
+    for i in range(ctx.n(400, 8000)):
         if ctx.out_of_time():
             break
         prog, top = hg.random_history(ctx, hrng)
